@@ -167,9 +167,11 @@ func (r *RefFS) open(o Op, flag int, perm uint32) ExpRes {
 	h.write = wr
 	h.append = flag&os.O_APPEND != 0 && wr
 	if n.kind == "file" && wr && flag&os.O_TRUNC != 0 {
-		n.data = nil
-		n.mtimeOK = false
-		n.unknown = false
+		// the truncation becomes visible in the namespace at the latest on
+		// sync/close: until then size/content of the entry are not compared
+		h.buf = []byte{}
+		h.hasBuf = true
+		n.dirty++
 	}
 	if old, ok := r.H[o.H]; ok {
 		r.closeHandle(old)
@@ -197,9 +199,7 @@ func (r *RefFS) flush(h *rhandle) {
 	if h.hasBuf {
 		h.n.data = append([]byte(nil), h.buf...)
 		h.n.mtimeOK = false
-		if h.unknown {
-			h.n.unknown = true
-		}
+		h.n.unknown = h.unknown
 	}
 }
 
@@ -244,6 +244,7 @@ func (r *RefFS) Apply(o Op) ExpRes {
 		}
 		h := r.H[-1]
 		delete(r.H, -1)
+		r.closeHandle(h)
 		if h.n.kind != "file" {
 			return ExpRes{Class: "isdir"}
 		}
@@ -332,11 +333,17 @@ func (r *RefFS) Apply(o Op) ExpRes {
 		if pc != "" {
 			return ExpRes{Class: failClass(pc)}
 		}
+		a, b := path.Clean("/"+o.P), path.Clean("/"+o.Q)
+		if src.kind == "dir" && strings.HasPrefix(b, a+"/") {
+			if _, _, pc := r.parentOf(o.Q); pc != "" {
+				return ExpRes{Class: "fail"} // EINVAL or ENOENT, whichever is noticed first
+			}
+			return ExpRes{Class: "invalid"}
+		}
 		dp, dname, pc := r.parentOf(o.Q)
 		if pc != "" {
 			return ExpRes{Class: failClass(pc)}
 		}
-		a, b := path.Clean("/"+o.P), path.Clean("/"+o.Q)
 		if a == b {
 			return ExpRes{Class: "ok"}
 		}
@@ -419,10 +426,26 @@ func (r *RefFS) Apply(o Op) ExpRes {
 			return ExpRes{Class: "fail"}
 		}
 		b := o.D.Bytes()
-		if o.K == "h.writeat" {
-			if o.O < 0 {
-				return ExpRes{Class: "fail"}
+		if o.K == "h.writeat" && o.O < 0 {
+			return ExpRes{Class: "fail"}
+		}
+		if h.unknown {
+			// content (and with it the end of the file) is no longer determined
+			h.posOK = false
+			r.ensureBuf(h)
+			return ExpRes{Class: "any"}
+		}
+		if len(b) == 0 {
+			// like write(2)/pwrite(2): writing nothing changes nothing (no hole
+			// is created); the cursor after a positioned write is unspecified
+			// ... and so is the cursor after an empty write on an O_APPEND handle
+			// (write(2) leaves it, in-memory files move it to the end)
+			if o.K == "h.writeat" || h.append {
+				h.posOK = false
 			}
+			return ExpRes{Class: "ok", N: 0, NOK: true}
+		}
+		if o.K == "h.writeat" {
 			if h.append {
 				// os.File refuses, in-memory files write at the offset
 				r.ensureBuf(h)
@@ -479,9 +502,7 @@ func (r *RefFS) Apply(o Op) ExpRes {
 			return ExpRes{Class: "ok", N: 0, NOK: true, DataOK: true}
 		}
 		if h.unknown || (!h.hasBuf && h.n.unknown) {
-			if o.K == "h.readat" {
-				h.posOK = false
-			}
+			h.posOK = false // how far a read advances depends on the unknown length
 			return ExpRes{Class: "any"}
 		}
 		v := r.view(h)
@@ -525,6 +546,10 @@ func (r *RefFS) Apply(o Op) ExpRes {
 			}
 			base = h.pos
 		case 2:
+			if h.unknown || (!h.hasBuf && h.n.unknown) {
+				h.posOK = false
+				return ExpRes{Class: "any"}
+			}
 			base = int64(len(r.view(h)))
 		default:
 			return ExpRes{Class: "fail"}
